@@ -371,6 +371,11 @@ theorem step_k4 (s s' : St) (e : Ev) (h : K4 s) (hs : step s e = some s') : K4 s
     split at hs
     · simp at hs; subst hs; exact fr _ rfl rfl rfl rfl rfl
     · cases hs
+  | envDo c =>
+    simp only [step, stepI] at hs
+    split at hs
+    · simp at hs; subst hs; exact fr _ rfl rfl rfl rfl rfl
+    · cases hs
   | envCancelW a =>
     simp only [step, stepI] at hs
     split at hs
